@@ -6,6 +6,7 @@ R12.2 clocks: a clock going backwards inside a stream / across streams is reject
 R12.3 metadata: unparsable file, version mismatch and each mandatory attribute; errors reach the exit status
 R12.5 the decoded event is fully defined (every field of struct emu_ev assigned on every path)
 R12.6 a payload shorter than declared never reaches the code that reads it
+R12.7 a stream cut inside an event is not taken for a stream that ended
 (R12.4, model not registered / not enabled and unknown codes, is decided by C14 R14.4 and C18 R18.1)
 """
 from ovsa import absint, dispatch, effects, errflow, models
@@ -26,6 +27,8 @@ def run(ctx):
     main = prog.fn("main", "src/emu/ovniemu.c")
     ctx.rule("R12.1", "check_stream_header accepts exactly when the file holds the 8-byte header with the right "
              "magic and version; an empty file and a bad header make load_obs fail; failures reach the exit status")
+    ctx.rule("R12.7", "stream_step reports the end of a stream only when its cursor is exactly at the last byte: "
+             "trailing bytes that do not hold a complete event make it fail, for every offset and size")
     ctx.rule("R12.2", "stream_step accepts an event only if its corrected clock is not lower than the previous one "
              "of that stream unless the stream was marked unsorted; the player rejects a backwards jump between "
              "streams likewise; the emulator initialises its player with unsorted = 0")
@@ -131,6 +134,35 @@ def run(ctx):
         else:
             ctx.ok("R12.2", "stream_step:unsorted:allowed", ss.loc(), "unsorted streams skip the test by design",
                    nontrivial=False)
+    # ---- R12.7: a cut trailing event is not an end of stream --------------------------------------
+    ex7 = absint.Explorer(prog, effects=eff, inline=lambda n, d: n in inl and d.name != "stream_step",
+                          loop_bound=2, max_depth=5, symbolic_roots=("BUF",),
+                          symbolic_ranges={"unsigned long": (0, 2 ** 61)})
+    S7 = ex7.sym("size", 8, 2 ** 31 - 1)
+    off7 = ex7.sym("off", 8, 2 ** 31 - 1)
+    store7 = {("ST", F("stream", "active")): INT(1), ("ST", F("stream", "size")): S7,
+              ("ST", F("stream", "offset")): off7, ("ST", F("stream", "buf")): PTR("BUF", (0,)),
+              ("ST", F("stream", "cur_ev")): PTR("BUF", (off7,)), ("ST", F("stream", "unsorted")): INT(0),
+              ("ST", F("stream", "lastclock")): ex7.sym("lastclock", -2 ** 61, 2 ** 61),
+              ("ST", F("stream", "clock_offset")): INT(0)}
+    # the current event's header lies inside the stream (it was accepted by the previous step)
+    outs7 = ex7.run(ss, [PTR("ST")], store7, cons=(((("off", 1), ("size", -1)), -12),))
+    ends = [o for o in outs7 if o.kind == "ret" and o.ret is not None and o.ret[0] == "int" and o.ret[1] > 0]
+    ctx.need(ends, "stream_step: no end-of-stream path explored")
+    bad7 = 0
+    for o in ends:
+        new = to_lin(o.store.get(("ST", F("stream", "offset")), TOP))
+        if new is None:
+            bad7 += 1
+            continue
+        t = dict(new[1])
+        t["size"] = t.get("size", 0) - 1
+        if ex7.decide_cmp(o.cons, "==", new[0], {k: c for k, c in t.items() if c}) is not True:
+            bad7 += 1
+    ctx.check(bad7 == 0, "R12.7", "stream_step:end-only-at-exact-size", ss.loc(),
+              "stream_step can report a normal end of stream while bytes remain after the last complete event "
+              "(%d of %d end-of-stream paths): a trace cut inside an event would be accepted" % (bad7, len(ends)))
+
     ws = sorted({f.name for f, n in eff.writers_of_field("stream", "unsorted")})
     ctx.check(ws == ["stream_allow_unsorted"], "R12.2", "stream.unsorted:single-writer", STREAMC,
               "stream->unsorted is written by %s" % ws)
@@ -234,6 +266,16 @@ def run(ctx):
         ctx.check(good, "R12.3", inst, fn.loc(site[0]),
                   "%s does not fail when '%s' is missing from the metadata" % (fname, key))
         propagate(fn, "R12.3", key)
+
+    # the requirement list of *every* stream is validated, not only of the first one that needs the model
+    # (same evaluation as C14 R14.3)
+    from rules.C14 import probe_class
+    mvp = prog.fn("model_version_probe", "src/emu/model.c")
+    for script in ((1, -1), (0, -1), (-1, 1), (1, 1, -1), (1, 0, -1)):
+        got = probe_class(prog, eff, script)
+        ctx.check(got == "neg", "R12.3", "require:every-stream-validated:%s" % (list(script),), mvp.loc(),
+                  "with per-stream requirement checks %s (-1 = malformed or incompatible ovni.require entry) the model "
+                  "probe returns %s instead of failing: a stream with bad metadata is accepted" % (list(script), got))
 
     # ---- R12.5 -----------------------------------------------------------------------------------
     ee = prog.fn("emu_ev", "src/emu/emu_ev.c")
